@@ -1106,7 +1106,57 @@ fn gen(seed: u64, run: u64, focus: &str, tier: Tier) -> Plan {
 
 fn run_format(p: &Plan, rep: &mut RunReport) {
     let model = gen_model(&p.specs[0]);
-    let mut s = to_in_memory(&model);
+    let mut s = if p.reinsert > 0 {
+        // a record replaced by a later one with the same hash: some files are first added in another shape (flags
+        // toggled: verification / metadata entries dropped or added, a segment dropped) and then added again as the
+        // model has them — the last record wins and the accounting must follow it
+        let mut s = MDBInMemoryShard::default();
+        let mut rr = Rng::new(p.query_seed ^ 0x5eed);
+        for f in model.files.values() {
+            if !rr.chance(1, 3) {
+                continue;
+            }
+            let mut v = f.clone();
+            match rr.below(4) {
+                0 => {
+                    v.flags ^= FLAG_VERIFICATION;
+                    v.verification = if v.flags & FLAG_VERIFICATION != 0 { v.segments.iter().map(|g| g.xorb).collect() } else { Vec::new() };
+                },
+                1 => {
+                    v.flags ^= FLAG_METADATA_EXT;
+                    v.sha256 = if v.flags & FLAG_METADATA_EXT != 0 { Some(v.hash) } else { None };
+                },
+                2 => {
+                    v.flags &= !(FLAG_VERIFICATION | FLAG_METADATA_EXT);
+                    v.verification.clear();
+                    v.sha256 = None;
+                    v.segments.truncate(v.segments.len() / 2);
+                },
+                _ => {
+                    if let Some(g) = v.segments.first().cloned() {
+                        let x = g.xorb;
+                        v.segments.push(g);
+                        if v.flags & FLAG_VERIFICATION != 0 {
+                            v.verification.push(x);
+                        }
+                    }
+                },
+            }
+            if v != *f {
+                s.add_file_reconstruction_info(to_file_info(&v)).unwrap();
+                rep.count("probe:file_record_replaced_by_other_shape", 1);
+            }
+        }
+        for x in model.xorbs.values() {
+            s.add_cas_block(to_cas_info(x)).unwrap();
+        }
+        for f in model.files.values() {
+            s.add_file_reconstruction_info(to_file_info(f)).unwrap();
+        }
+        s
+    } else {
+        to_in_memory(&model)
+    };
     // re-insertion of identical records (the session layer does this when two files cut the same xorb)
     if p.reinsert > 0 {
         let mut rr = Rng::new(p.query_seed);
